@@ -109,8 +109,9 @@ type Request struct {
 	Type, Flags uint16
 	Seq, Pid    uint32
 	Payload     []byte
-	Verdict     int // errno in the ACK (0 = success)
+	Verdict     int  // errno in the ACK (0 = success)
 	DataFirst   bool // the reply was queued ahead of the ACK
+	AckMistyped bool // the refusal came with a netlink type other than NLMSG_ERROR
 	Injected    bool
 	Applied     bool
 	Replies     []*Datagram
@@ -123,17 +124,18 @@ type Request struct {
 
 // ReqFault is the fault script attached to the n-th request.
 type ReqFault struct {
-	Errno       int   `json:"errno,omitempty"`        // injected verdict (request not applied)
-	UnsolBefore int   `json:"unsol_before,omitempty"` // unsolicited seq-0 records before the ACK
-	UnsolAfter  int   `json:"unsol_after,omitempty"`  // between ACK and data
-	UnsolMid    int   `json:"unsol_mid,omitempty"`    // between data parts
-	Stale       bool  `json:"stale,omitempty"`        // ACK 0 for a foreign non-zero sequence ahead of the real reply
-	DelayNs     int64 `json:"delay_ns,omitempty"`     // replies become receivable only after this long
-	DataTrunc   int   `json:"data_trunc,omitempty"`   // GET reply payload cut to this many bytes (-1 = no cut) ; value+1 stored, 0 = none
-	DataPad     int   `json:"data_pad,omitempty"`     // GET reply payload extended by this many trailing bytes
-	AckShort    int   `json:"ack_short,omitempty"`    // ACK datagram cut to this many bytes (+1, 0 = none)
-	Spoof       int   `json:"spoof,omitempty"`        // 1: a datagram from a non-kernel port id ahead; 2: non-netlink sockaddr ahead
-	DataFirst   bool  `json:"data_first,omitempty"`   // GET: the reply (queued by a kernel thread) overtakes the ACK; UnsolMid records sit between the two
+	Errno       int    `json:"errno,omitempty"`        // injected verdict (request not applied)
+	UnsolBefore int    `json:"unsol_before,omitempty"` // unsolicited seq-0 records before the ACK
+	UnsolAfter  int    `json:"unsol_after,omitempty"`  // between ACK and data
+	UnsolMid    int    `json:"unsol_mid,omitempty"`    // between data parts
+	Stale       bool   `json:"stale,omitempty"`        // ACK 0 for a foreign non-zero sequence ahead of the real reply
+	DelayNs     int64  `json:"delay_ns,omitempty"`     // replies become receivable only after this long
+	DataTrunc   int    `json:"data_trunc,omitempty"`   // GET reply payload cut to this many bytes (-1 = no cut) ; value+1 stored, 0 = none
+	DataPad     int    `json:"data_pad,omitempty"`     // GET reply payload extended by this many trailing bytes
+	AckShort    int    `json:"ack_short,omitempty"`    // ACK datagram cut to this many bytes (+1, 0 = none)
+	Spoof       int    `json:"spoof,omitempty"`        // 1: a datagram from a non-kernel port id ahead; 2: non-netlink sockaddr ahead
+	AckType     uint16 `json:"ack_type,omitempty"`     // the reply that should be the ACK of a refused request carries this netlink type instead of NLMSG_ERROR (its payload is intact)
+	DataFirst   bool   `json:"data_first,omitempty"`   // GET: the reply (queued by a kernel thread) overtakes the ACK; UnsolMid records sit between the two
 }
 
 // Kernel is the simulated audit subsystem with one client socket.
@@ -342,6 +344,11 @@ func (k *Kernel) Sendto(wire []byte, dstPid uint32) int {
 	var ackD *Datagram
 	if wantAck {
 		ackD = k.ack(r, errno, avail)
+		if f.AckType != 0 && errno != 0 {
+			le.PutUint16(ackD.Bytes[4:], f.AckType)
+			r.AckMistyped = true
+			k.FiredTrunc++
+		}
 		if f.AckShort > 0 {
 			n := f.AckShort - 1
 			if n < len(ackD.Bytes) {
